@@ -118,7 +118,13 @@ func (c *Condition) ValueAsNumber() (decimal.Decimal, error) {
 
 // ValueAsDate returns the value as a date if possible, or an error if not
 func (c *Condition) ValueAsDate(env envs.Environment) (time.Time, error) {
-	return envs.DateTimeFromString(env, c.value, false)
+	d, err := envs.DateTimeFromString(env, c.value, false)
+	if err != nil {
+		return d, err
+	}
+
+	// a value written with its own UTC offset is still compared by calendar day in the environment's timezone
+	return d.In(env.Timezone()), nil
 }
 
 // ValueAsGroup returns the value as a group if possible
